@@ -37,6 +37,41 @@ pub fn dispatch(args: &[String]) -> Option<i32> {
             println!("{}", serde_json::to_string(&out).unwrap());
             Some(0)
         }
+        Some("fuzz-case") => {
+            // vp fuzz-case <artifact> <out.json>: libFuzzer input -> JSON replay file of C01
+            let data = std::fs::read(&args[2]).ok()?;
+            let h = match crate::fuzzdec::history_from_bytes(&data) {
+                Some(h) => h,
+                None => {
+                    eprintln!("input too short to describe a history");
+                    return Some(3);
+                }
+            };
+            let v = serde_json::json!({
+                "property": "C01",
+                "profile": "strict",
+                "failure": {"kind": "fuzz", "op": null, "msg": format!("libFuzzer artifact {}", args[2])},
+                "case": h,
+            });
+            std::fs::write(&args[3], serde_json::to_string_pretty(&v).unwrap()).ok()?;
+            Some(0)
+        }
+        Some("evidence-merge") => {
+            // vp evidence-merge <evidence.json> <key> <json-file>: coverage[key] = contents
+            let mut ev: serde_json::Value = serde_json::from_str(&std::fs::read_to_string(&args[2]).ok()?).ok()?;
+            let add: serde_json::Value = serde_json::from_str(&std::fs::read_to_string(&args[4]).ok()?).ok()?;
+            if let Some(n) = add.get("executions").and_then(|x| x.as_u64()) {
+                let cur = ev["coverage"]["evaluations"].as_u64().unwrap_or(0);
+                ev["coverage"]["evaluations"] = serde_json::json!(cur + n);
+            }
+            if let Some(n) = add.get("violations").and_then(|x| x.as_u64()) {
+                let cur = ev["violations"].as_u64().unwrap_or(0);
+                ev["violations"] = serde_json::json!(cur + n);
+            }
+            ev["coverage"][&args[3]] = add;
+            std::fs::write(&args[2], serde_json::to_string_pretty(&ev).unwrap()).ok()?;
+            Some(0)
+        }
         Some("mkgolden") => Some(crate::props::c12::mkgolden(std::path::Path::new(&args[2]))),
         Some("c16-child") => Some(crate::props::c16::child_main(&args[2])),
         Some("c03-child") => Some(crate::props::c03::child_main(&args[2])),
